@@ -486,6 +486,34 @@ def run_scenario(progs, cause, cut, chooser, max_steps=6000):
             self.sock_list = g
         llc_mod.ServiceAccessPoint.__init__ = sap_init
 
+        # the same rule one level down: a socket's send and receive queues change only under that socket's lock (the
+        # waits of send()/recv()/poll()/accept()/connect() and the link loop's enqueue()/dequeue() all rely on it - a
+        # PDU queued or taken outside the lock can be missed by a thread that has just checked the queue and is about
+        # to wait: the lost wake-up that leaves it blocked when nothing else arrives)
+        orig_tco_init = tco_mod.TransmissionControlObject.__init__
+        saved[(tco_mod.TransmissionControlObject, "__init__")] = orig_tco_init
+        ctx.unlocked_q = []
+
+        class GuardedQueue(collections.deque):
+            tco, qname = None, "?"
+
+            def _chk(self, op):
+                lk = self.tco.lock
+                owned = lk._is_owned() if hasattr(lk, "_is_owned") else True
+                if not owned and sch.in_logical():
+                    ctx.unlocked_q.append((self.qname + "." + op, lname(), " < ".join(
+                        "%s:%s" % (f.name, f.lineno) for f in reversed(traceback.extract_stack()[-5:-2]))))
+        for _n in ("append", "appendleft", "remove", "pop", "popleft", "clear", "extend", "extendleft", "insert"):
+            setattr(GuardedQueue, _n, _guard(_n))
+
+        def tco_init(self, *a, **k):
+            orig_tco_init(self, *a, **k)
+            for qn in ("send_queue", "recv_queue"):
+                g = GuardedQueue(getattr(self, qn))
+                g.tco, g.qname = self, qn
+                setattr(self, qn, g)
+        tco_mod.TransmissionControlObject.__init__ = tco_init
+
         # linearisation point of the modelled calls: the base class recv()/poll("recv") critical section
         base = tco_mod.TransmissionControlObject
         orig_recv, orig_poll = base.recv, base.poll
@@ -533,7 +561,7 @@ def run_scenario(progs, cause, cut, chooser, max_steps=6000):
         return dict(outcome=outcome, blocked=blocked, threads=threads, events=ctx.ev,
                     results=ctx.results, picks=list(chooser.picks), steps=sch.step,
                     fan=getattr(chooser, "fan", None), taken=getattr(chooser, "taken", None),
-                    exchanges=mac.n, unlocked=sorted(set(ctx.unlocked)))
+                    exchanges=mac.n, unlocked=sorted(set(ctx.unlocked)), unlocked_q=sorted(set(ctx.unlocked_q)))
     finally:
         for (cls, name), orig in saved.items():
             setattr(cls, name, orig)
@@ -557,6 +585,10 @@ def judge(progs, cause, cut, res):
                "loop walks that list under the lock in every cycle (RuntimeError 'deque mutated during iteration' ends the "
                "loop without terminate(), every blocked socket call then waits forever); cause=%s cut=%s" % (
                    tname, op, where, cause, cut))
+    for op, tname, where in res.get("unlocked_q", ()):
+        yield ("registry:%s-outside-socket-lock@%s" % (op, where.split(" < ")[0].split(":")[0]),
+               "thread %s changed a socket queue (%s) without holding the socket lock, at %s: a thread that has just found the "
+               "queue empty and is about to wait misses the wake-up; cause=%s cut=%s" % (tname, op, where, cause, cut))
     if res["outcome"] == "steps":
         yield ("livelock:%s" % "+".join(progs), "step budget exhausted: %s" % res["threads"])
         return
@@ -656,7 +688,7 @@ def _work(job):
         return ("error", traceback.format_exc(), job)
     slim = []
     for rep, res in out:
-        slim.append((rep, dict(outcome=res["outcome"], blocked=res["blocked"], threads=res["threads"], unlocked=res.get("unlocked", []),
+        slim.append((rep, dict(outcome=res["outcome"], blocked=res["blocked"], threads=res["threads"], unlocked=res.get("unlocked", []), unlocked_q=res.get("unlocked_q", []),
                                results=res["results"], events=res["events"], steps=res["steps"],
                                exchanges=res["exchanges"])))
     return ("ok", slim, job)
